@@ -6,8 +6,8 @@ package main
 // three-valued logic for NULL.
 
 import (
-	"go/token"
 	"fmt"
+	"go/token"
 	"hash/fnv"
 	"strings"
 )
@@ -261,6 +261,15 @@ func (e *sqlEnv) pair(l, r SQLExpr) (Term, Term) {
 func (e *sqlEnv) cond(ex SQLExpr) tv3 {
 	switch n := ex.(type) {
 	case SQLBin:
+		if strings.HasPrefix(n.Op, "like escape ") {
+			// a LIKE with an ESCAPE clause: its own uninterpreted predicate (not the predicate of plain LIKE)
+			l := e.value(n.L, SOptS)
+			r := e.value(n.R, SOptS)
+			nn := And(Not(optIsNull(l)), Not(optIsNull(r)))
+			f := e.g.x.sym.Func("sql.like.escape."+sanitizeOp(strings.TrimPrefix(n.Op, "like escape ")), []Sort{SStr, SStr}, SBool)
+			c := App(SBool, f, optVal(l), optVal(r))
+			return tv3{And(nn, c), And(nn, Not(c))}
+		}
 		switch n.Op {
 		case "and":
 			a, b := e.cond(n.L), e.cond(n.R)
